@@ -114,8 +114,10 @@ def run(prog, rep, tier):
         d = mine[0]
         b, extra = api.bind_slots(api.GEN_SLOTS["choice"], d.args, d.kwargs)
         sz = b.get("size")
+        fixed_forms = (fixed, ("ext", "numpy.repeat", (SIZE, K), ()), ("ext", "numpy.full", (K, SIZE), ()), ("binop", "*", ("tuple", (SIZE,)), K),
+                       ("binop", "*", K, ("list", (SIZE,))))
         sz_ok = sz is not None and sz[0] == "sub" and sz[2] in counter and sz[1][0] == "phi" and is_tuple2(sz[1][1]) and \
-            sz[1][2] == sizes_t and sz[1][3] == fixed
+            sz[1][2] == sizes_t and sz[1][3] in fixed_forms
         rep.check("CHOICE.distinct", d.recv == RNG and b.get("replace") == ("const", False) and not extra, fwhere(f, d.node),
                   "rng.choice(..., replace=False): distinct variables within an intervention", "targets within an intervention may repeat (replace is not False) or another generator is used")
         rep.check("CHOICE.size", sz_ok, fwhere(f, d.node), "size = sizes[i] with sizes = range draw | [size] * K", "intervention size is %s" % fmt(sz)[:100] if sz else "no size")
@@ -135,9 +137,10 @@ def run(prog, rep, tier):
             if len(carried) == 1:
                 nm = carried[0]
                 mu = ("mu", lid, nm)
-                init_ok = strip_list(li["init"][nm]) == ("ext", "range", (Pp,), ())
+                init_ok = strip_list(li["init"][nm]) in (("ext", "range", (Pp,), ()), ("ext", "numpy.arange", (Pp,), ()))
                 nx = li["next"][nm]
-                shrink = nx[0] == "binop" and nx[1] == "-" and nx[2] == mu and strip_list(nx[3]) == d.result
+                shrink = (nx[0] == "binop" and nx[1] == "-" and nx[2] == mu and strip_list(nx[3]) == d.result) or \
+                    (nx[0] == "mut" and nx[1] == mu and nx[2] == "difference_update" and len(nx[3]) == 1 and strip_list(nx[3][0]) == d.result)
                 ok = init_ok and shrink and pool == mu
             rep.check("POOL.shrinks", ok, fwhere(f, d.node), "pool starts as range(p) and loses each intervention before the next draw: no variable twice",
                       "without replacement the pool is not `range(p)` minus everything drawn so far")
